@@ -237,6 +237,7 @@ theorem inv_emit (hF : Framed I) (e : DEv) : Inv I (emit e) := by unfold emit; d
 theorem inv_failNow (hF : Framed I) : Inv I failNow := by unfold failNow; dm_walk
 theorem inv_fsExists (p : Bytes) : Inv I (fsExists p) := by unfold fsExists; dm_walk
 theorem inv_fsIsRegular (p : Bytes) : Inv I (fsIsRegular p) := by unfold fsIsRegular; dm_walk
+theorem inv_fsIsSymlink (p : Bytes) : Inv I (fsIsSymlink p) := by unfold fsIsSymlink; dm_walk
 theorem inv_fsGetPerms (p : Bytes) : Inv I (fsGetPerms p) := by unfold fsGetPerms; dm_walk
 theorem inv_readTty (hF : Framed I) : Inv I readTty := by
   constructor
@@ -382,7 +383,7 @@ theorem inv_processSection {I : DState → Prop} {I' : Bytes → Bytes → DStat
   dm_walk [inv_switch (I' := I' _ _) (hsw _ _) (hback _ _) (fun _ => ?_),
     hct _ _,
     inv_guessFilepath _ _, inv_promptForFilepath hF _, inv_parseBodyM hF _ _, inv_emit hF _, inv_failNow hF,
-    inv_fsExists _, inv_fsIsRegular _, inv_fsGetPerms _,
+    inv_fsExists _, inv_fsIsRegular _, inv_fsIsSymlink _, inv_fsGetPerms _,
     inv_parseBodyM (hF' _ _) _ _, inv_emit (hF' _ _) _, inv_failNow (hF' _ _), inv_checkWithUser (hF' _ _) _ _,
     inv_refuseToPatch (hF' _ _) (fun h => (hlive h _ _).pRej) _,
     inv_fixPermissionsIfNeeded (hF' _ _) _ _,
